@@ -37,6 +37,7 @@ def linecol(s, pos):
 
 GOOD = [r"a {b} c", r"\textbf{a} b", r"$a+b$ and \[c\]", r"\begin{itemize}\item x\end{itemize}", "x % c\n y", r"\emph{a $b$}",
         r"\begin{equation}a\end{equation} z", r"\sqrt[3]{x}", r"a\\[2pt] b", r"\(x\) {\it y}", r"``q'' -- ~z"]
+TRUNCATED = [r"\textbf", r"\frac{1}", r"\sqrt", r"\section", r"\emph", r"\sqrt[2]", r"\begin{tabular}", r"\verb", r"\item["]
 FAULTS = ["}", "{", "$", r"\(", r"\)", r"\[", r"\]", r"\begin{center}", r"\end{center}", "$$"]
 '''
 
@@ -79,6 +80,10 @@ def search():
             r = check_strict(s)
             if r == "accepted": return "unbalanced document %r was accepted in strict mode" % (s,)
             if r != "rejected": return r
+    for f in TRUNCATED:
+        for s in ("a " + f, "{a " + f, "a " + f + "  ", "$x " + f, "a " + f + "% c"):
+            r = check_strict(s)
+            if r not in ("accepted", "rejected"): return r
     for t in strings("a {}$\\%\n[]", 4):
         r = check_strict(t)
         if r not in ("accepted", "rejected"): return r
@@ -119,6 +124,11 @@ def search():
     for s in ["Price: 100# apples", r"\textbf{a#b}", "x #"]:
         m = check_tolerant(s, forbidden_characters="#")
         if m: return m
+    # input that stops where an argument is still expected
+    for f in TRUNCATED:
+        for s in ("a " + f, "{a " + f, "a " + f + "  ", "$x " + f, "a " + f + "% c"):
+            m = check_tolerant(s)
+            if m: return m
     for t in strings("a {}$\\%\n[]", 4):
         m = check_tolerant(t)
         if m: return m
